@@ -68,6 +68,14 @@ pub fn run_scenario(sc: &Scenario, keep_log: bool) -> RunOutput {
     if sc.aux.selftest {
         return selftest_scenario(sc);
     }
+    // a fatal signal during this run is reported as a violation with this scenario as replay
+    static VDIR: std::sync::OnceLock<std::path::PathBuf> = std::sync::OnceLock::new();
+    let vdir = VDIR.get_or_init(|| {
+        let d = verif_dir();
+        crate::crash::install(&d);
+        d
+    });
+    let _in_run = crate::crash::enter(sc, vdir);
     match sc.property.as_str() {
         "C06" => {
             use c06::run_c06;
@@ -621,6 +629,19 @@ pub fn replay_file(path: &str) -> i32 {
             return 2;
         }
     };
+    // the same wall-clock watchdog as in a batch: a run that hung there hangs here
+    {
+        let prop = sc.property.clone();
+        let (tn, wk, seed) = (sc.type_name.clone(), sc.world, sc.seed);
+        let path = path.to_string();
+        std::thread::spawn(move || {
+            std::thread::sleep(std::time::Duration::from_secs(300));
+            println!("run did not finish within 300 s of wall-clock time (type {} world {:?} seed {})", tn, wk, seed);
+            println!("violation: [{}|wall-clock|hang:wall-clock|run]", prop);
+            println!("VIOLATION property={} replay={}", prop, path);
+            std::process::exit(1);
+        });
+    }
     let out = run_scenario(&sc, true);
     println!("replay {}: property={} world={:?} type={} log_hash={:016x}", path, sc.property, sc.world, sc.type_name, out.full_hash);
     if let Some(e) = &out.harness_error {
